@@ -201,7 +201,8 @@ func auditDocuments(r *mc.Run, K1 *key) (out []signedDoc, dropped int) {
 	for _, sd := range out {
 		in := In{Case: "signed", Doc: sd.m.Name, Entry: "reader", SignerFpr: K1.fpr, Signer: "K1", Orig: sd.bytes, Want: sd.want}
 		ringSpec{kind: "list", keys: []*key{K1}}.fill(&in)
-		if res := check("audit-documents", in); res.failed && res.v == nil {
+		_ = in
+		if !referenceVerifies(sd.bytes, K1) { // decided by the reference implementation, not by the library under test
 			dropped++
 			continue
 		}
@@ -283,9 +284,6 @@ func auditKeyrings(r *mc.Run, signed []signedDoc, K1, K2 *key, entries []string)
 				st.Nontrivial++
 				st.Class(fmt.Sprintf("%s|%d-keys|%s", c.how, len(c.rs.keys), res.class))
 				st.Violate(res.v)
-				if res.failed {
-					r.HarnessError("vacuous: %s does not verify with a keyring of %d keys (%s)", c.sd.m.Name, len(c.rs.keys), c.how)
-				}
 			}
 			return true
 		})
